@@ -145,6 +145,13 @@ class Tr:
                 tg = st.targets if isinstance(st, ast.Assign) else [st.target]
                 if any(_mentions_self(t) for t in tg):
                     raise TranslatorError(f"{where}: assignment to an attribute of self: {ast.unparse(st)[:60]}")
+                if len(tg) == 1 and isinstance(tg[0], ast.Name):
+                    info.setdefault("env", {})[tg[0].id] = val          # a local may hold the SQL text / the bindings
+                else:
+                    for t_ in tg:
+                        for nm in ast.walk(t_):
+                            if isinstance(nm, ast.Name):
+                                info.get("env", {}).pop(nm.id, None)
                 return [([], False)]
             raise TranslatorError(f"{where}: assignment using self: {ast.unparse(st)[:80]}")
         if isinstance(st, ast.AugAssign):
@@ -195,6 +202,9 @@ class Tr:
     def exec_op(self, call: ast.Call, where: str, info: dict):
         if call.keywords or len(call.args) != 2:
             raise TranslatorError(f"{where}: self.execute with unexpected arguments")
+        env = info.get("env", {})
+        args = [env.get(a.id, a) if isinstance(a, ast.Name) else a for a in call.args]
+        call = ast.Call(func=call.func, args=args, keywords=[])
         sql = _sql_text(call.args[0])
         m = INSERT_RE.match(sql)
         if not m:
@@ -348,9 +358,22 @@ def _upgrades_of(tr: Tr, clsname: str):
         return int(mod.IdentityDatabase.LATEST_DB_VERSION), []
     mod = importlib.import_module("ipv8.attestation.wallet.database")
     cls = mod.AttestationsDB
-    src = ast.unparse(_class(ast.parse((REPO / SOURCES[1][0]).read_text()), clsname, SOURCES[1][0]))
-    if "get_upgrade_script(current_version=" not in src or "self.executescript(self.get_schema(" not in src:
-        raise TranslatorError(f"{clsname}.check_database no longer has the upgrade loop / schema script shape")
+    wcls = _class(ast.parse((REPO / SOURCES[1][0]).read_text()), clsname, SOURCES[1][0])
+    chk = next((n for n in wcls.body if isinstance(n, ast.FunctionDef) and n.name == "check_database"), None)
+    if chk is None:
+        raise TranslatorError(f"{clsname}.check_database not found")
+    loops = [n for n in ast.walk(chk) if isinstance(n, ast.While)]
+    if len(loops) != 1 or ast.unparse(loops[0].test).replace(" ", "") != "idatabase_version<self.LATEST_DB_VERSION":
+        raise TranslatorError(f"{clsname}.check_database: expected one loop `while idatabase_version < self.LATEST_DB_VERSION`")
+    body = [ast.unparse(x).replace(" ", "").replace("\n", ";") for x in loops[0].body]
+    want = ["upgrade_script=self.get_upgrade_script(current_version=idatabase_version)",
+            "ifupgrade_script:;self.executescript(upgrade_script)", "idatabase_version+=1"]
+    if body != want:
+        raise TranslatorError(f"{clsname}.check_database: upgrade loop body is {body}, expected fetch script for the "
+                              f"current version, run it, then step to the next version")
+    tail = [ast.unparse(x).replace(" ", "") for x in chk.body if x.lineno > loops[0].end_lineno]
+    if tail[:2] != ["self.executescript(self.get_schema(idatabase_version))", "self.commit()"]:
+        raise TranslatorError(f"{clsname}.check_database: after the upgrades expected the schema script and a commit, got {tail[:2]}")
     inst = cls.__new__(cls)
     inst.db_name = WALLET_TABLE
     ups = []
@@ -420,9 +443,15 @@ def reload_mode() -> tuple[str, dict]:
             or not isinstance(loop.target, ast.Name):
         raise TranslatorError(f"reload loop iterates over `{ast.unparse(loop.iter)[:80]}`")
     var = loop.target.id
-    if len(loop.body) != 1:
+    if len(loop.body) == 2 and isinstance(loop.body[0], ast.Assign) and len(loop.body[0].targets) == 1 \
+            and isinstance(loop.body[0].targets[0], ast.Name) \
+            and ast.unparse(loop.body[0].value) == f"{var}.get_hash()":
+        local = loop.body[0].targets[0].id            # h = token.get_hash(); self.tree.elements[h] = token
+        body = ast.unparse(loop.body[1]).replace(f"[{local}]", f"[{var}.get_hash()]")
+    elif len(loop.body) == 1:
+        body = ast.unparse(loop.body[0])
+    else:
         raise TranslatorError("reload loop body is not a single statement")
-    body = ast.unparse(loop.body[0])
     if "get_credentials_for(self.public_key)" not in ast.unparse(init):
         raise TranslatorError("PseudonymManager.__init__ no longer loads the credentials")
     if body == f"self.tree.elements[{var}.get_hash()] = {var}":
@@ -439,6 +468,47 @@ def reload_mode() -> tuple[str, dict]:
             raise TranslatorError("TokenTree.unchained_max_size is not an integer literal")
         return f".gather {cap}", {"mode": "gather", "cap": cap}
     raise TranslatorError(f"reload loop body not recognised: {body[:80]}")
+
+
+def credential_order() -> dict:
+    """the order in which PseudonymManager stores the parts of a credential, read off the call sites in source order:
+    add_credential: self.database.insert_token / self.store_new_tokens (tokens, table 0), self.database.insert_metadata
+    (1), self.add_attestation (2; add_attestation must call self.database.insert_attestation); create_credential must
+    go through add_credential; substantiate: store_new_tokens / add_metadata / add_attestation"""
+    tree = ast.parse((REPO / MANAGER).read_text())
+    pm = _class(tree, "PseudonymManager", MANAGER)
+    im = _class(tree, "IdentityManager", MANAGER)
+    fns = {n.name: n for n in pm.body if isinstance(n, ast.FunctionDef)}
+    ifns = {n.name: n for n in im.body if isinstance(n, ast.FunctionDef)}
+    for need in ("add_credential", "create_credential", "add_attestation", "add_metadata", "store_new_tokens"):
+        if need not in fns:
+            raise TranslatorError(f"PseudonymManager.{need} not found")
+    if "substantiate" not in ifns:
+        raise TranslatorError("IdentityManager.substantiate not found")
+
+    def order_of(fn, table_of):
+        seq = []
+        for n in ast.walk(fn):
+            if isinstance(n, ast.Call):
+                name = ast.unparse(n.func)
+                for pat, t in table_of.items():
+                    if name.endswith(pat):
+                        seq.append((n.lineno, n.col_offset, t))
+        out = []
+        for _, _, t in sorted(seq):
+            if not out or out[-1] != t:
+                out.append(t)
+        return out
+    add = order_of(fns["add_credential"], {"database.insert_token": 0, "self.store_new_tokens": 0,
+                                           "database.insert_metadata": 1, "self.add_attestation": 2})
+    if "self.database.insert_attestation(" not in ast.unparse(fns["add_attestation"]) or \
+            "self.database.insert_metadata(" not in ast.unparse(fns["add_metadata"]) or \
+            "self.database.insert_token(" not in ast.unparse(fns["store_new_tokens"]):
+        raise TranslatorError("add_attestation / add_metadata / store_new_tokens no longer call the database inserts")
+    if "self.add_credential(token, metadata" not in ast.unparse(fns["create_credential"]):
+        raise TranslatorError("create_credential no longer stores through add_credential")
+    sub = order_of(ifns["substantiate"], {"store_new_tokens": 0, ".add_metadata": 1, ".add_attestation": 2})
+    return {"add_credential": add, "substantiate": sub}
 
 
 def lean_prim(p) -> str:
@@ -518,9 +588,17 @@ def translate() -> tuple[str, dict]:
         raise TranslatorError("db_call not found")
     wrapper = next((n for n in dbc.body if isinstance(n, ast.FunctionDef)), None)
     ok = False
-    if wrapper is not None and len(wrapper.body) == 1 and isinstance(wrapper.body[0], ast.With):
-        w = wrapper.body[0]
+    wbody = list(wrapper.body) if wrapper is not None else []
+    lock_local = None
+    if len(wbody) == 2 and isinstance(wbody[0], ast.Assign) and len(wbody[0].targets) == 1 \
+            and isinstance(wbody[0].targets[0], ast.Name) and ast.unparse(wbody[0].value) == "db_locks[self._file_path]":
+        lock_local = wbody[0].targets[0].id            # lock = db_locks[self._file_path]; with lock: …
+        wbody = wbody[1:]
+    if len(wbody) == 1 and isinstance(wbody[0], ast.With):
+        w = wbody[0]
         item = ast.unparse(w.items[0].context_expr) if len(w.items) == 1 else ""
+        if lock_local is not None and item == lock_local:
+            item = "db_locks[self._file_path]"
         body = [ast.unparse(x) for x in w.body]
         ok = (item == "db_locks[self._file_path]" and len(body) == 2
               and body[0].replace("\n", " ").split() == "if self._cursor: return f(self, *args, **kwargs)".split()
@@ -588,6 +666,7 @@ def translate() -> tuple[str, dict]:
         meta.setdefault("open", {})[clsname] = {"latest": latest, "upgrades": ups}
         lean_scripts.append((clsname, ls, [tr.tid(n) for n in tinfo], latest, ups))
     reload_lean, meta["reload"] = reload_mode()
+    meta["credential_order"] = credential_order()
     meta["table_names"] = list(tr.tables)
     meta["column_names"] = list(tr.columns)
 
@@ -638,6 +717,11 @@ def translate() -> tuple[str, dict]:
                 f"    detectsOld := {'true' if detects.get(clsname) else 'false'} }}",
                 ""]
     out += [
+            "/-- tables in the order PseudonymManager.add_credential (hence create_credential) and IdentityManager.substantiate",
+            "    store the parts of a credential: 0 tokens, 1 metadata, 2 attestations -/",
+            f"def credentialOrder : List Nat := {lean_list([str(t) for t in meta['credential_order']['add_credential']])}",
+            f"def substantiateOrder : List Nat := {lean_list([str(t) for t in meta['credential_order']['substantiate']])}",
+            "",
             "/-- how PseudonymManager.__init__ puts the stored tokens back into the tree -/",
             f"def reloadMode : ReloadMode := {reload_lean}",
             "",
